@@ -35,7 +35,7 @@ cfg("MC_C04.cfg", N2, [1], 14, 17, 1, "Limit_Links", ["create", "link", "delete"
 cfg("MC_C05_quick.cfg", N2, [1, 2], 14, 16, 1, "Limit_Links", ["create", "link", "attr", "data"], ["WrongKind", "ForeignBlock"], "Script_Links")
 cfg("MC_C05.cfg", N2, [1, 2], 14, 17, 1, "Limit_Links", ["create", "link", "attr", "data"], ["WrongKind", "ForeignBlock"], "Script_Links")
 # C12: every fault class at every state
-cfg("MC_C12_quick.cfg", N2, [1], 14, 15, 1, "Limit_Sim", ["create", "mtagauto", "createfault", "attr", "link", "delete"], ALLF, "Script_Links")
+cfg("MC_C12_quick.cfg", N2, [1], 14, 15, 1, "Limit_Sim", ["create", "mtagauto", "createfault", "attr", "link", "extend", "delete"], ALLF, "Script_Links")
 cfg("MC_C12.cfg", N2, [1], 15, 16, 1, "Limit_Sim", ["create", "mtagauto", "createfault", "attr", "link", "delete"], ALLF, "Script_Links")
 cfg("MC_C12_free.cfg", N2, [1], 4, 4, 1, "Limit_C04", ["create", "mtagauto", "createfault", "attr", "link", "delete"], ALLF, "NoScript")
 # C02: everything that writes, small universe, reopen at every state
@@ -68,12 +68,14 @@ cfg("MC_C02_relink.cfg", N2, [1], 6, 9, 1, "Limit_Small", ["create", "link"], []
 cfg("MC_C02_relink4.cfg", N2, [1], 6, 10, 1, "Limit_Small", ["create", "link"], [], "Script_Small")
 # C03: link lists over a source tree with shadowed names
 cfg("MC_C03_shadow.cfg", N2, [1], 8, 10, 1, "Limit_Shadow", ["create", "link"], ["NotMember"], "Script_Shadow")
+# C12: extend() on lists that already have members
+cfg("MC_C12_extend.cfg", N2, [1], 6, 11, 1, "Limit_Small", ["create", "link", "extend"], ["WrongKind", "ForeignBlock"], "Script_Linked")
 # simulation (-simulate): random walks are not cut by the VIEW, so calls are repeated, undone and redone
 cfg("MC_SimLinks.cfg", N2, [1, 2], 14, 32, 1, "Limit_Links", ["create", "link", "attr", "data", "delete"], ["WrongKind", "ForeignBlock", "NotMember"], "Script_Links", inv=[], props=[])
 cfg("MC_SimSmall.cfg", N2, [1, 2], 6, 24, 1, "Limit_Small", ["create", "link", "attr"], ["NotMember"], "Script_Small", inv=[], props=[])
 cfg("MC_SimChurn.cfg", N2, [1], 40, 24, 1, "Limit_C03", ["create", "delete"], ["DuplicateName", "NotFound"], "NoScript", inv=[], props=[])
 # quick-tier variants: one call after the scripted prefix (the thorough tier and the simulations go deeper)
-cfg("MC_C05_q1.cfg", N2, [1, 2], 14, 15, 1, "Limit_Links", ["create", "link", "attr", "data"], ["WrongKind", "ForeignBlock"], "Script_Links")
+cfg("MC_C05_q1.cfg", N2, [1, 2], 14, 15, 1, "Limit_Links", ["create", "link", "extend", "attr", "data"], ["WrongKind", "ForeignBlock"], "Script_Links")
 cfg("MC_C19_links_q1.cfg", N2, [1, 2], 14, 15, 2, "Limit_Links", ["create", "attr", "time", "link"], [], "Script_Links")
 # C19 after a refused call (a refusal must not leave the session's switch or clock handling changed): every fault class
 # at the scripted state; the harness applies the setter probe after each refused call
